@@ -414,12 +414,35 @@ def selftest(prop, tier, base_seed, n):
 
 
 # ---------------------------------------------------------------------------
+def _confirm_and_shrink(task):
+    """Runs in a forked child of the (clean) coordinator: replay the recorded plan; if the same
+    violation shows again, shrink it and replay the result once more."""
+    plan, sig = task
+    from . import pool
+    pool.limit_memory()
+    res = replay_plan(plan)
+    if not _same(res, sig):
+        return {'confirmed': False, 'got': res['violation'], 'harness_error': res['harness_error']}
+    small, nruns = shrink(plan, sig)
+    res2 = replay_plan(small)
+    if not _same(res2, sig):
+        small, res2 = plan, res
+    return {'confirmed': True, 'plan': small, 'violation': res2['violation'], 'digest': res2['digest'],
+            'shrink_runs': nruns}
+
+
 def handle_violations(prop, agg, known, out=print):
-    """Shrink, write replay files, print VIOLATION / KNOWN-FINDING lines.  Returns #new."""
+    """Confirm, shrink, write replay files, print VIOLATION / KNOWN-FINDING lines.  Returns #new.
+
+    A violation is only reported if replaying its recorded plan in a fresh process shows it again:
+    the replay file is the evidence, and a worker that was damaged by what it unpickled must not be
+    able to raise an alarm that does not replay."""
+    from . import pool
     os.makedirs(os.path.join(VERIF, 'replays'), exist_ok=True)
     new = 0
     seen = set()
     known_hits = {}
+    agg.setdefault('unconfirmed', [])
     for v in agg['violations']:
         sig = v['violation']['sig']
         k = match_known(prop, v['violation'], known)
@@ -428,22 +451,34 @@ def handle_violations(prop, agg, known, out=print):
             continue
         if sig in seen:
             continue
+        box = {}
+
+        def on_result(task, r, err):
+            box['r'], box['err'] = r, err
+        pool.fork_map(_confirm_and_shrink, [(v['plan'], sig)], 1, task_timeout=600, on_result=on_result)
+        r = box.get('r')
+        if r is None:
+            # the confirming child died: report the unshrunk plan, it is still a replayable claim
+            r = {'confirmed': True, 'plan': v['plan'], 'violation': v['violation'], 'digest': v['digest'],
+                 'shrink_runs': 0}
+        if not r['confirmed']:
+            agg['unconfirmed'].append('seed %d: %s did not show again when its recorded plan was replayed in a '
+                                      'fresh process (got %r)' % (v['seed'], sig, r.get('got')))
+            continue
         seen.add(sig)
-        small, nruns = shrink(v['plan'], sig)
-        res = replay_plan(small)
-        if not _same(res, sig):
-            small, res = v['plan'], replay_plan(v['plan'])
         path = os.path.join(VERIF, 'replays', '%s-%d.json' % (prop, v['seed']))
         with open(path, 'w') as f:
             json.dump({'property': prop, 'profile': PROFILE_OF[prop], 'seed': v['seed'],
-                       'violation': res['violation'] or v['violation'], 'digest': res['digest'],
-                       'shrink_runs': nruns, 'original_ops': len(v['plan']['ops']),
-                       'plan': small}, f, indent=1)
+                       'violation': r['violation'], 'digest': r['digest'],
+                       'shrink_runs': r['shrink_runs'], 'original_ops': len(v['plan']['ops']),
+                       'plan': r['plan']}, f, indent=1)
         out('VIOLATION property=%s replay=%s' % (prop, path))
-        out('  clause=%s detail=%s' % (v['violation']['clause'], str((res['violation'] or v['violation'])['detail'])[:300]))
+        out('  clause=%s detail=%s' % (v['violation']['clause'], str(r['violation']['detail'])[:300]))
         new += 1
     for sig, (k, v) in known_hits.items():
         out('KNOWN-FINDING: property=%s %s' % (prop, k['what']))
+    if agg['unconfirmed']:
+        agg['harness'].append('unconfirmed violations: %s' % agg['unconfirmed'][:3])
     return new
 
 
